@@ -48,6 +48,12 @@
  *           without GETOPT_MISSING_ARG), opterr 0 (and 1 for <= 2 tokens);
  *           optarg inside an argument string, optind in [1, argc], loop ends.
  *
+ * --deep (given by ./check to the thorough tier only): every string
+ * enumeration one symbol longer than thorough over the same alphabets: json
+ * 0..8, b64d 0..9, unhex len 0..5, pnum integer 0..7 and float 0..7, hsize
+ * 0..8, sock 0..8, small files 0..7, getopt 0..6 tokens (opterr 1 still for
+ * <= 2 tokens); jsonc and the generated families as in thorough.
+ *
  * Oracle: memory safety, termination and documented result ranges only — the
  * values themselves are C16/C17/C18's business.
  * Not covered: inputs outside the listed alphabets/lengths; host-name forms
@@ -310,7 +316,7 @@ case_jsondeep(const uint8_t * desc, size_t len)
 /* ================================================================== */
 /* b64decode / unhexify                                                */
 /* ================================================================== */
-#define CMAX 8
+#define CMAX 10
 static uint8_t * cin_blk[CMAX + 1];
 static struct gblk b64o[CMAX + 1], hexo[CMAX + 1], szout;
 static int codec_ready;
@@ -641,7 +647,8 @@ unit_sock(uint64_t u)
 	if (u == 5)
 		vf_sample("sock: every string starting with [1 over {[ ] : / . 1 0 a}, e.g. \"[1]:1\", \"[1:]:\", \"[1]]:\": resolve / ensure_port / resolve_one read only the strlen+1 bytes; results freed");
 }
-static void unit_filesmall(uint64_t u) { enum_strings(u, FILEALPHA, 6, 5, file_small_one); }
+static int file_maxlen = 5;
+static void unit_filesmall(uint64_t u) { enum_strings(u, FILEALPHA, 6, file_maxlen, file_small_one); }
 
 static void
 unit_sockgen(uint64_t u)
@@ -746,12 +753,24 @@ int
 main(int argc, char ** argv)
 {
 	uint64_t total = 0;
-	int s;
+	int s, deep = 0;
 
 	vf_init(&argc, argv, "h_parse");
+	for (s = 1; s < argc; s++)
+		if (strcmp(argv[s], "--deep") == 0)
+			deep = 1;
 	if (vf_tier) {
 		json_maxlen = 7; jsonc_maxm = 3; b64_maxlen = 8; hex_maxlen = 4; pnum_maxlen = 6; pflt_maxlen = 6; hs_maxlen = 7; sock_maxlen = 7;
 		getopt_maxlen = 5;
+	}
+	if (deep) {
+		/*
+		 * Beyond thorough (./check gives --deep to the thorough tier only): every
+		 * string enumeration one symbol longer over the same alphabets.  A replay
+		 * needs no flag: every case record carries its complete input.
+		 */
+		json_maxlen = 8; b64_maxlen = 9; hex_maxlen = 5; pnum_maxlen = 7; pflt_maxlen = 7; hs_maxlen = 8; sock_maxlen = 8;
+		getopt_maxlen = 6; file_maxlen = 7;
 	}
 	if (vf_replay != NULL)
 		return (replay_one());
@@ -759,8 +778,8 @@ main(int argc, char ** argv)
 	vf_info("bounds", "json_find: 13-symbol alphabet ^0..%d x 3 keys; corpus documents of 0..%d members (every new prefix, every deletion); depth 10000; "
 	    "b64decode: 7 symbols ^0..%d x inlen variants; unhexify: 7 symbols, len 0..%d; PARSENUM: 13 symbols ^0..%d x 5 integer types x 4 bases x trailing, "
 	    "14 symbols ^0..%d x {double,float}; humansize_parse: 9 symbols ^0..%d; digit runs 18..40; sock_resolve: 8 symbols ^0..%d + Unix paths 100..112 + long forms; "
-	    "deserialize: 44 buffer lengths x 10 length fields x 5 families; key/pass files: 6 symbols ^0..5 + generated long lines; getopt: 18 tokens ^0..%d x 2 tables",
-	    json_maxlen, jsonc_maxm, b64_maxlen, hex_maxlen, pnum_maxlen, pflt_maxlen, hs_maxlen, sock_maxlen, getopt_maxlen);
+	    "deserialize: 44 buffer lengths x 10 length fields x 5 families; key/pass files: 6 symbols ^0..%d + generated long lines; getopt: 18 tokens ^0..%d x 2 tables",
+	    json_maxlen, jsonc_maxm, b64_maxlen, hex_maxlen, pnum_maxlen, pflt_maxlen, hs_maxlen, sock_maxlen, file_maxlen, getopt_maxlen);
 	vf_info("nontrivial_rule", "the parser accepted the input / returned a pointer inside the buffer / reached a registered option (so the decoding, copying or value path ran, not only the first validation test); distinct sets saturate at 2^20 entries each (lower bound)");
 	for (s = 0; s < NSEC; s++)
 		total += SEC[s].nunits;
